@@ -95,45 +95,52 @@ func take_(obj any) shot {
 		if reflect.ValueOf(x).Kind() == reflect.Ptr && reflect.ValueOf(x).IsNil() {
 			return shot{Kind: "nil"}
 		}
-		m := snap.Matrix(x)
-		s := shot{Kind: "matrix", R: m.R, C: m.C, E: m.E}
-		// printing and iterating a view may panic (C10 decides those): the
-		// element-wise state is still observed
-		if p := fw.Call(func() { s.Str = x.String() }); p != nil {
-			s.Str = "<String() panics>"
-		}
+		// the iterator walk comes first: sparse iterators drop stored entries that
+		// have become zero, which would otherwise make two consecutive shots of an
+		// untouched object differ (-0 / derivative metadata of a stored zero)
+		seq := ""
 		if p := fw.Call(func() {
+			rows, cols := x.Dims()
 			var b strings.Builder
 			steps := 0
-			for it := x.ConstIterator(); it.Ok() && steps <= m.R*m.C+4; it.Next() {
+			for it := x.ConstIterator(); it.Ok() && steps <= rows*cols+4; it.Next() {
 				i, j := it.Index()
 				fmt.Fprintf(&b, "%d,%d:%v;", i, j, it.GetConst().GetFloat64())
 				steps++
 			}
-			s.Seq = b.String()
+			seq = b.String()
 		}); p != nil {
-			s.Seq = "<iteration panics>"
+			seq = "<iteration panics>"
+		}
+		m := snap.Matrix(x)
+		s := shot{Kind: "matrix", R: m.R, C: m.C, E: m.E, Seq: seq}
+		// printing and iterating a view may panic (C10 decides those): the
+		// element-wise state is still observed
+		if p := fw.Call(func() { s.Str = x.String() }); p != nil {
+			s.Str = "<String() panics>"
 		}
 		return s
 	case ad.ConstVector:
 		if rv := reflect.ValueOf(x); rv.Kind() == reflect.Ptr && rv.IsNil() {
 			return shot{Kind: "nil"}
 		}
-		v := snap.Vector(x)
-		s := shot{Kind: "vector", R: v.Dim, E: v.E}
-		if p := fw.Call(func() { s.Str = x.String() }); p != nil {
-			s.Str = "<String() panics>"
-		}
+		seq := ""
 		if p := fw.Call(func() {
+			n := x.Dim()
 			var b strings.Builder
 			steps := 0
-			for it := x.ConstIterator(); it.Ok() && steps <= v.Dim+4; it.Next() {
+			for it := x.ConstIterator(); it.Ok() && steps <= n+4; it.Next() {
 				fmt.Fprintf(&b, "%d:%v;", it.Index(), it.GetConst().GetFloat64())
 				steps++
 			}
-			s.Seq = b.String()
+			seq = b.String()
 		}); p != nil {
-			s.Seq = "<iteration panics>"
+			seq = "<iteration panics>"
+		}
+		v := snap.Vector(x)
+		s := shot{Kind: "vector", R: v.Dim, E: v.E, Seq: seq}
+		if p := fw.Call(func() { s.Str = x.String() }); p != nil {
+			s.Str = "<String() panics>"
 		}
 		return s
 	case ad.ConstScalar:
